@@ -10,7 +10,9 @@ Oracle (the property itself, on the real binary): exit 0; last message "Aborted.
 progress is finished and no further one started; every time-indexed dataset has as many rows as the
 time axis; every record but the final one equals the uninterrupted run's record of the same index;
 every record (the final one included) equals the record of the same step number of a reference run
-that writes every step.  Thorough also: real asynchronous kill -INT at random times."""
+that writes every step.  Thorough also: real asynchronous kill -INT at random times.
+Families stream (seed F4-J): the same oracles with every dataset family switched on and SavePhaseSpace 0 / k / zero steps, SIGINT
+at every hook label; the append overloads' control flow and every access to the flag are theorems about Gen_H5Append / Gen_AbortFlag."""
 import os, json, shutil, signal, subprocess, time
 from vp_common import *
 import vp_coq, vp_build
@@ -396,11 +398,16 @@ def run(ctx):
                 "thorough also asynchronous kill -INT at random times; four ways of leaving the set-up early (nothing to do, unknown output type, option "
                 "error, results file cannot be created), each undisturbed and with SIGINT at set-up points; the model executes the generated "
                 "set-up skeleton under the environment inferred from the run's own label trace; "
+                "families stream: three more configurations with every dataset family on (wake, tracking, RF modulation) and SavePhaseSpace 0 / k / a "
+                "zero-step run (-T 0): consistent lengths of the uninterrupted file, SIGINT at the first occurrence of every hook label (set-up and "
+                "prologue included), at a later occurrence of half of them and beyond the last point (thorough: every point, two more configurations); "
                 "non-trivial = the interrupt arrives after start-up or cuts the run short and records were compared")
     coq = vp_coq.full_check("C14", ctx, fams=("driver",))
     tg = ctx.build(harness=("h5cat",), want_binary=True)
     ctx.trusted.add("harness: harness/h5cat.cpp, lib/driver_cases.py, VERIF_POINT hook (inc/VerifHooks.hpp: raise(SIGINT) is "
                     "synchronous at the point), HDF5/FFTW libraries")
+    ctx.trusted.add("translate/h5append2coq.py (clang AST of HDF5File.cpp: statements without _appendData/return/throw are skipped), "
+                    "translate/abortflag2coq.py (lexical scan of src/ and inc/ for the identifier `abort`; preprocessor conditionals not evaluated)")
     ctx.trusted.add("harness/sigshim.c (LD_PRELOAD: raise(SIGINT) inside wrapped HDF5/FFTW entry points; the interior of the libraries "
                     "is reached by the asynchronous stream of the thorough tier only); translate/signals2coq.py is a lexical scan "
                     "(preprocessor conditionals not evaluated, function pointers to signal() obtained other than by name are not seen); "
